@@ -129,6 +129,7 @@ def run(an: Analysis, rep):
     rep.rule("R16.3", "printed value, JSON value and re-encoded value are the same definition", 4)
     rep.rule("R16.4", "flag polarity", 4)
     rep.run(r16f, an, rep)
+    rep.run(r169, an, rep)
     fn = an.prog.function("code_data._cli::main")
     m = fn.module
     opts = parser_options(an)
@@ -547,6 +548,9 @@ def run(an: Analysis, rep):
     from .common import SharedRules as _SR16, purity as _purity16
     rep.run(_purity16, an, rep, "R16.P", ["from_code", "normalize", "to_json", "to_code"])
     from . import c03 as _c03r
+    from . import c08 as _c08k16
+    rep.run(_c08k16.r084, an, _SR16(rep, "R16.K", "the key that decides which constants are one table entry tells apart what CPython tells apart (shared with C08's R08.4): the command prints and re-encodes "
+                                                  "normalized data, in which a coarser key merges constants (-1j and 0-1j) that --dis shows apart"), rule="R16.K")
     shr16 = _SR16(rep, "R16.R", "the code --dis-after disassembles is laid out from data without recorded widths: the encoder's re-layout and layout fold (shared with C03's R03.7 / R03.E) - "
                                 "'--dis-after shows the same instructions as --dis'")
     rep.run(_c03r.r037, an, shr16)
@@ -595,6 +599,20 @@ def r16f(an: Analysis, rep, rule="R16.F"):
     class UsageError(Exception):
         pass
 
+    def _compile_extras(a, k):
+        """Arguments of compile() beyond (source, name, mode) that change the code object: explicit flags, an optimisation level other than 'as the interpreter runs'
+        (the API's result for the same program is compiled the way the running interpreter compiles).  dont_inherit alone changes nothing here."""
+        names = ("flags", "dont_inherit", "optimize")
+        given = dict(zip(names, a), **k)
+        out = []
+        if given.get("flags", 0) not in (0, None):
+            out.append(("flags", given["flags"]))
+        if given.get("optimize", -1) != -1:
+            out.append(("optimize", given["optimize"]))
+        for extra in set(given) - set(names):
+            out.append((extra, given[extra]))
+        return out
+
     def run(ns):
         out = []
 
@@ -623,7 +641,7 @@ def r16f(an: Analysis, rep, rule="R16.F"):
             "Console": lambda *a, **k: {"print": lambda *x, **kw: out.append(("print",) + x)},
             "Syntax": lambda src, *a, **k: tok("syntax", src), "JSON": {"from_data": lambda d, **k: tok("rendered_json", d)},
             "dumps": lambda d, **k: tok("rendered_json", d), "print": lambda *a, **k: None,
-            "eval": lambda e, *a: tok("value_of", e), "compile": lambda src, name, mode, *a, **k: code_tok("compile", src, name, mode),
+            "eval": lambda e, *a: tok("value_of", e), "compile": lambda src, name, mode, *a, **k: code_tok("compile", src, name, mode, *_compile_extras(a, k)),
             "pathlib": {"Path": lambda f: {"read_bytes": lambda: tok("bytes_of", f), "read_text": lambda *a, **k: tok("text_of", f)}},
             "open": lambda f, *a, **k: {"read": lambda: tok("text_of", f)},
             "tokenize": {"open": lambda f: {"read": lambda: tok("text_of", f)}},
@@ -728,3 +746,22 @@ def r16f(an: Analysis, rep, rule="R16.F"):
             f"4 sources x {2 ** len(flags)} flag combinations: the value printed, the JSON document and the re-encoded code are the API's results for the one program" if not bad_run else
             bad_run[0] + (f" (+{len(bad_run) - 1} more)" if len(bad_run) > 1 else ""))
     rep.add(rule, "witness command lines folded", True, "code_data/_cli.py", f"{n} namespaces", nontrivial=False)
+
+
+def r169(an: Analysis, rep, rule="R16.9"):
+    """What the command prints is the value itself: no field of the data classes is left out of the printed form (`field(repr=False)` hides it from repr(), which
+    is what the console falls back to without rich; the rich protocol of the classes lists every field that differs from its default)."""
+    from .common import data_classes
+    rep.rule(rule, "no field of the data is hidden from the printed form", 1)
+    n = 0
+    for ci in data_classes(an):
+        if ci.dc_args.get("repr") is False:
+            rep.add(rule, f"{ci.qual}::repr", False, loc(ci.module, ci.node), f"@dataclass(repr=False) on {ci.name}: the command prints an object address instead of the data")
+        for f in ci.fields:
+            n += 1
+            fl = getattr(f, "flags", {})
+            if "repr" in fl and fl["repr"] is not True:
+                rep.add(rule, f"{ci.qual}.{f.name}::shown when printed", False, loc(ci.module, f.node),
+                        f"field(repr={fl['repr']!r}): {f.name} does not appear in the printed CodeData, so what the command prints is not the API's result (evaluating the printout gives the "
+                        f"default for {f.name})")
+    rep.add(rule, "fields of the data classes are part of the printed form", True, "code_data/__init__.py", f"{n} fields examined", nontrivial=False)
